@@ -5,7 +5,7 @@ from penman import layout, surface
 from penman.tree import Tree
 
 from pv.gen import models, trees
-from pv.harness import Hyp
+from pv.harness import Enum, Hyp
 from pv.props.common import fmt, short, tree_classes, tree_stats
 from pv.ref import interp
 from pv.ref.role import build_model
@@ -84,6 +84,13 @@ def check(case):
     if len(set(vm.values())) != len(vm):
         return [('reference-map-not-injective', repr(vm))]
     t = Tree(interp.to_node(case['tree']))
+    m0 = build_model(spec)
+    if case.get('touch'):
+        # the same Tree object is used before it is relabelled (derived state must follow the relabelling)
+        layout.interpret(t, m0)
+        import penman as _p
+        _p.format(t, compact=True)
+        t.nodes()
     t.reset_variables(fmt_)
     want = rename_tree(node, vm)
     if t.node != want:
@@ -107,6 +114,10 @@ def check(case):
     m = build_model(spec)
     g0 = layout.interpret(Tree(node), m)
     g1 = layout.interpret(t, m)
+    # relabelling twice with the same format is relabelling once (names depend on concepts and order only)
+    t.reset_variables(fmt_)
+    if t.node != want:
+        f.append(('relabel-twice', '%s fmt=%r: second pass gives %s' % (fmt(node), fmt_, fmt(t.node))))
     ren = lambda x: vm.get(x, x) if isinstance(x, str) else x
     exp = [(vm[s], r, t_ if r == ':instance' else ren(t_)) for s, r, t_ in g0.triples]
     if g1.triples != exp or g1.top != vm[g0.top]:
@@ -157,8 +168,80 @@ def classes(case):
 def _cases(draw, large=False):
     spec = draw(st.sampled_from([{'name': 'default'}, {'name': 'amr'}, {'name': 'noop'}]))
     j = draw(trees.wf_trees(spec, max_nodes=40 if large else 8, wide=6 if large else 3))
-    return {'tree': j, 'model': spec, 'fmt': draw(st.sampled_from(FORMATS))}
+    if draw(st.integers(0, 5)) == 0:
+        # variables that look like numbers / signs, and names that are a permutation of what the format will produce
+        ren = {}
+        pool = ['1', '2', '-', '+1', '.5', '0', 'a2', 'a', 'b2', 'b', 'v0', 'v1', 'x2', 'x']
+        def rn(nd):
+            if nd[0] not in ren:
+                ren[nd[0]] = pool[len(ren) % len(pool)] if len(ren) < len(pool) else nd[0]
+            for br in nd[1]:
+                if isinstance(br[1], list):
+                    rn(br[1])
+        rn(j)
+        if len(set(ren.values())) == len(ren):
+            def ap(nd):
+                nd[0] = ren[nd[0]]
+                for br in nd[1]:
+                    if isinstance(br[1], list):
+                        ap(br[1])
+                    elif br[0] != '/' and isinstance(br[1], str):
+                        a, tilde, al = br[1].partition('~')
+                        if a in ren and not br[1].startswith('"'):
+                            br[1] = ren[a] + tilde + al
+            # constants spelled like a new name would change meaning: only rename when no constant collides
+            consts = set()
+            def cs(nd):
+                for br in nd[1]:
+                    if isinstance(br[1], list):
+                        cs(br[1])
+                    elif br[0] != '/' and isinstance(br[1], str):
+                        consts.add(br[1].partition('~')[0])
+            cs(j)
+            if not (consts - set(ren)) & set(ren.values()):
+                ap(j)
+    fmt_ = draw(st.sampled_from(FORMATS))
+    if draw(st.integers(0, 5)) == 0:
+        # the tree already uses exactly the names the format produces, but on other nodes (a rotation of them)
+        node = interp.to_node(j)
+        if interp.wellformed(node, spec) is None:
+            vm = ref_varmap(node, fmt_)
+            olds = list(vm)
+            news = [vm[o] for o in olds]
+            k = draw(st.integers(1, max(1, len(news) - 1)))
+            rot = news[k:] + news[:k]
+            consts = set()
+
+            def cs(nd):
+                for r, x in nd[1]:
+                    if not interp.is_atom(x):
+                        cs(x)
+                    elif r != '/' and isinstance(x, str):
+                        consts.add(interp.split_atom(x)[0])
+            cs(node)
+            if len(set(news)) == len(news) and not (consts - set(olds)) & set(news):
+                j = interp.to_json(rename_tree(node, dict(zip(olds, rot))))
+    return {'tree': j, 'model': spec, 'fmt': fmt_, 'touch': draw(st.booleans())}
+
+
+def _many_chunks(tier):
+    return [{'n': n, 'shape': s} for n in (100, 300, 600) for s in ('flat', 'chain')]
+
+
+def _many_cases(ch):
+    n = ch['n']
+    if ch['shape'] == 'flat':
+        j = ['r', [['/', 'root']] + [[':op%d' % i, ['n%d' % i, [['/', 'node']]]] for i in range(n)] + [[':ARG0', 'n3'], [':ARG1-of', 'n%d' % (n - 1)]]]
+    else:
+        j = ['n%d' % (n - 1), [['/', 'node'], [':ARG0', 'n0']]]
+        for i in range(n - 2, -1, -1):
+            j = ['n%d' % i, [['/', 'node%d' % (i % 3)], [':ARG1', j]]] if i % 40 else ['n%d' % i, [['/', 'node'], [':ARG1', j], [':ARG2-of', 'n%d' % (n - 1)]]]
+        if n > 250:
+            return          # deeper than the supported nesting; flat shape covers the count
+    for fmt_ in ('{prefix}{j}', 'v{i}', '{prefix}{i}'):
+        yield {'tree': j, 'model': {'name': 'default'}, 'fmt': fmt_}
 
 
 def stages(tier):
-    return [Hyp('random', _cases, 6000, 200000), Hyp('random-large', lambda: _cases(large=True), 300, 15000)]
+    return [Hyp('random', _cases, 6000, 200000), Hyp('random-large', lambda: _cases(large=True), 300, 15000),
+            Enum('many-nodes', _many_chunks, _many_cases, 'flat and chained trees of 100 / 300 / 600 nodes whose concepts share a first letter, each format')]
